@@ -716,6 +716,17 @@ class Message:
             # even an empty userinfo is not part of the coap URI syntax
             raise error.MalformedUrlError("User name and password not supported.")
 
+        if ("[" in parsed.netloc or "]" in parsed.netloc) and not (
+            parsed.netloc.startswith("[")
+            and parsed.netloc.count("[") == 1
+            and parsed.netloc.count("]") == 1
+        ):
+            # urlparse takes whatever is between a "[" and a "]" for the host
+            # name, eg. "::" out of "][::"
+            raise error.MalformedUrlError(
+                "Square brackets are only allowed around an IP literal"
+            )
+
         try:
             if parsed.path not in ("", "/"):
                 # FIXME: This tolerates incomplete % sequences.
